@@ -152,11 +152,12 @@ type LatencyMetrics struct {
 
 // Add adds the given latency to the latency metrics.
 func (l *LatencyMetrics) Add(latency time.Duration) {
+	first := l.estimator == nil
 	l.init()
 	if l.Total += latency; latency > l.Max {
 		l.Max = latency
 	}
-	if latency < l.Min || l.Min == 0 {
+	if first || latency < l.Min {
 		l.Min = latency
 	}
 	l.estimator.Add(float64(latency))
